@@ -17,8 +17,8 @@ import (
 	"time"
 
 	"github.com/PowerDNS/lightningstream/config"
-	"github.com/PowerDNS/lightningstream/snapshot"
 	"github.com/PowerDNS/lightningstream/lmdbenv/header"
+	"github.com/PowerDNS/lightningstream/snapshot"
 	"github.com/PowerDNS/lightningstream/syncer/cleaner"
 	"github.com/PowerDNS/lightningstream/utils/verifhook"
 	"github.com/PowerDNS/lmdb-go/lmdb"
@@ -49,19 +49,19 @@ type viol struct{ sig, msg string }
 var nDeletes, nStaleDeletes, nRuns atomic.Int64
 
 type sim struct {
-	cfg       ccfg
-	b         *world.Bucket
-	w         *cleaner.Worker
-	now       time.Time
-	firstSeen map[string]time.Time // model
-	committed map[string]time.Time
-	lastTS    map[string]time.Time
-	failList  bool
-	failDel   bool
-	foreign   map[int]bool
-	lastRun   time.Time
+	cfg             ccfg
+	b               *world.Bucket
+	w               *cleaner.Worker
+	now             time.Time
+	firstSeen       map[string]time.Time // model
+	committed       map[string]time.Time
+	lastTS          map[string]time.Time
+	failList        bool
+	failDel         bool
+	foreign         map[int]bool
+	lastRun         time.Time
 	arrivedSinceRun bool
-	viols     []viol
+	viols           []viol
 }
 
 var epoch = time.Date(2030, 1, 1, 0, 0, 0, 0, time.UTC)
@@ -320,7 +320,25 @@ func (s *sim) canon() string {
 		cs = append(cs, fmt.Sprintf("%s:%v", in, s.now.Sub(t)))
 	}
 	sort.Strings(cs)
-	return strings.Join(parts, ",") + "|" + strings.Join(cs, ",") + fmt.Sprintf("|%v%v", s.failList, s.failDel)
+	// the worker's own bookkeeping (not only the model's mirror of it): states whose hidden state differs are never merged
+	var hs []string
+	rel := func(name string) string {
+		if ni, ok := validOwn(name); ok {
+			return fmt.Sprintf("%s@%v", ni.InstanceID, s.now.Sub(ni.Timestamp))
+		}
+		return name[:min(len(name), 12)]
+	}
+	for n, t := range s.w.VerifFirstSeen() {
+		hs = append(hs, fmt.Sprintf("fs:%s=%v", rel(n), s.now.Sub(t)))
+	}
+	for n := range s.w.VerifIgnored() {
+		hs = append(hs, "ig:"+rel(n))
+	}
+	for in, t := range s.w.VerifCommitted() {
+		hs = append(hs, fmt.Sprintf("lc:%s=%v", in, s.now.Sub(t)))
+	}
+	sort.Strings(hs)
+	return strings.Join(parts, ",") + "|" + strings.Join(cs, ",") + fmt.Sprintf("|%v%v|", s.failList, s.failDel) + strings.Join(hs, ",")
 }
 
 func replay(cfg ccfg, hist []string) *sim {
@@ -382,10 +400,38 @@ func bfs(r *ev.Run, name string, cfg ccfg, depth int) {
 		Samples: []any{strings.Join(sample, " ")}})
 }
 
+const K, S = 10 * time.Second, 100 * time.Second
+
+var partCfgs = map[string]ccfg{
+	"keep10s-stale100s":                {Enabled: true, Keep: K, Stale: S, Insts: []string{"a", "s"}, Deltas: []time.Duration{0, S + 2}, Adv: []time.Duration{time.Second, K, K + 1, S, S + 1}, Faults: false},
+	"keep10s-stale100s-faults-foreign": {Enabled: true, Keep: K, Stale: S, Insts: []string{"a"}, Deltas: []time.Duration{0}, Adv: []time.Duration{K + 1, S + 1}, Faults: true, Foreign: true},
+	"keep0-stale0":                     {Enabled: true, Keep: 0, Stale: 0, Insts: []string{"a", "s"}, Deltas: []time.Duration{0, 1}, Adv: []time.Duration{0, 1, time.Second}},
+	"keep0-stale1h-3inst":              {Enabled: true, Keep: 0, Stale: time.Hour, Insts: []string{"a", "b", "s"}, Deltas: []time.Duration{0}, Adv: []time.Duration{time.Second, time.Hour + 1}},
+	"disabled":                         {Enabled: false, Keep: K, Stale: S, Insts: []string{"a"}, Deltas: []time.Duration{0}, Adv: []time.Duration{S + 1}},
+}
+
 func main() {
 	flag.Parse()
 	if v, ok := ev.ReplayRequested(); ok {
-		fmt.Printf("  this check enumerates inputs; the replay artefact names the failing input directly: %v\n", v.Replay)
+		var hist []string
+		if v.ReplayField("history", &hist) && !strings.HasPrefix(v.Part, "syncer-") && !strings.HasPrefix(v.Part, "receive-only") {
+			cfg, ok := partCfgs[v.Part]
+			if !ok {
+				fmt.Printf("  unknown part %q\n", v.Part)
+				return
+			}
+			s := newSim(cfg)
+			for i, e := range hist {
+				nv := len(s.viols)
+				s.apply(e)
+				fmt.Printf("  step %d %-5s bucket %v\n", i+1, e, s.b.Names())
+				for _, vv := range s.viols[nv:] {
+					fmt.Printf("      violation %s: %s\n", vv.sig, vv.msg)
+				}
+			}
+			return
+		}
+		fmt.Printf("  this part enumerates inputs; the replay artefact names the failing input directly: %v\n", v.Replay)
 		return
 	}
 	r := ev.Start("C12")
@@ -395,14 +441,12 @@ func main() {
 	r.Assume("time translation invariance: the cleaner only uses differences between 'now', snapshot timestamps, first-seen times and committed times; states are keyed on exact differences",
 		"per instance snapshots appear in timestamp order; the bucket lists only names with the database prefix (simpleblob contract)")
 
-	K, S := 10*time.Second, 100*time.Second
-	adv := []time.Duration{time.Second, K, K + 1, S, S + 1}
 	d := ev.Pick(r, 0, 2)
-	bfs(r, "keep10s-stale100s", ccfg{Enabled: true, Keep: K, Stale: S, Insts: []string{"a", "s"}, Deltas: []time.Duration{0, S + 2}, Adv: adv, Faults: false}, 7+d)
-	bfs(r, "keep10s-stale100s-faults-foreign", ccfg{Enabled: true, Keep: K, Stale: S, Insts: []string{"a"}, Deltas: []time.Duration{0}, Adv: []time.Duration{K + 1, S + 1}, Faults: true, Foreign: true}, 9+d)
-	bfs(r, "keep0-stale0", ccfg{Enabled: true, Keep: 0, Stale: 0, Insts: []string{"a", "s"}, Deltas: []time.Duration{0, 1}, Adv: []time.Duration{0, 1, time.Second}}, 7+d)
-	bfs(r, "keep0-stale1h-3inst", ccfg{Enabled: true, Keep: 0, Stale: time.Hour, Insts: []string{"a", "b", "s"}, Deltas: []time.Duration{0}, Adv: []time.Duration{time.Second, time.Hour + 1}}, 7+d)
-	bfs(r, "disabled", ccfg{Enabled: false, Keep: K, Stale: S, Insts: []string{"a"}, Deltas: []time.Duration{0}, Adv: []time.Duration{S + 1}}, 5)
+	bfs(r, "keep10s-stale100s", partCfgs["keep10s-stale100s"], 7+d)
+	bfs(r, "keep10s-stale100s-faults-foreign", partCfgs["keep10s-stale100s-faults-foreign"], 9+d)
+	bfs(r, "keep0-stale0", partCfgs["keep0-stale0"], 7+d)
+	bfs(r, "keep0-stale1h-3inst", partCfgs["keep0-stale1h-3inst"], 7+d)
+	bfs(r, "disabled", partCfgs["disabled"], 5)
 
 	r.Extra("cleaner_runs_judged", nRuns.Load())
 	r.Extra("delete_calls_judged", nDeletes.Load())
@@ -411,6 +455,8 @@ func main() {
 	{
 		p := &ev.Part{Name: "syncer-commit-notifications", Engine: "E2", Exhaustive: true}
 		verifhook.SetSkip(func(string) bool { return true })
+		verifhook.SetSleep(func(context.Context, time.Duration) (bool, error) { return true, nil }) // retry sleeps take no time
+		defer verifhook.SetSleep(nil)
 		seqLen := ev.Pick(r, 5, 6)
 		var seqs [][]byte
 		var gen func(cur []byte)
@@ -421,7 +467,7 @@ func main() {
 			if len(cur) == seqLen {
 				return
 			}
-			for _, e := range []byte("SLC") {
+			for _, e := range []byte("SLCF") {
 				gen(append(cur, e))
 			}
 		}
@@ -453,16 +499,36 @@ func main() {
 				now := time.Now().Add(48 * time.Hour) // far beyond keep and stale intervals relative to the snapshot times
 				merged, republished := false, false
 				var last header.TxnID
+				outage := false
+				bkt.Hook = func(op, name string) error {
+					if op == "store" && outage {
+						return fmt.Errorf("injected storage outage")
+					}
+					return nil
+				}
+				ownBlobs := func() int {
+					n := 0
+					for _, nm := range bkt.Names() {
+						if strings.Contains(nm, "__s__") {
+							n++
+						}
+					}
+					return n
+				}
 				for si, e := range seq {
 					now = now.Add(time.Hour)
 					switch e {
-					case 'S':
+					case 'S', 'F':
+						// F: every Store attempt of this SendOnce fails (storage outage)
+						outage = e == 'F'
+						before := ownBlobs()
 						id, err := me.Send()
+						outage = false
 						if err == nil {
 							last = id
-							if merged {
-								republished = true
-							}
+						}
+						if merged && ownBlobs() > before {
+							republished = true // judged by what is in the bucket, not by what SendOnce reports
 						}
 					case 'L':
 						if _, ok := bkt.Get(cname); ok {
@@ -493,7 +559,7 @@ func main() {
 		}
 		p.States = int64(len(seqs))
 		p.Distinct = int64(len(outcomes))
-		p.Bound = fmt.Sprintf("native and shadow x all %d sequences of length<=%d over {SendOnce, LoadOnce of the silent instance's snapshot, cleaner run}, every step an hour apart (beyond keep and stale intervals)", len(seqs), seqLen)
+		p.Bound = fmt.Sprintf("native and shadow x all %d sequences of length<=%d over {SendOnce, SendOnce during a storage outage, LoadOnce of the silent instance's snapshot, cleaner run}, every step an hour apart (beyond keep and stale intervals)", len(seqs), seqLen)
 		p.Samples = []any{"S L C C : c's snapshot must survive (merged but not republished)", "L S C C : may be deleted"}
 		r.AddPart(p)
 	}
